@@ -183,24 +183,35 @@ def _gauss(x, m, sd):
     return math.exp(-((x - m) ** 2) / (2 * sd * sd))
 
 
+def _below_mid(x, s, e, strict):
+    """x < (s+e)/2 (strict) or x <= (s+e)/2, decided in exact arithmetic: the documented case distinction is about real
+    numbers, and for start/end a few ulps apart the ROUNDED midpoint coincides with an end point."""
+    if math.isinf(x) or math.isinf(s) or math.isinf(e):
+        m = 0.5 * (s + e)
+        return x < m if strict else x <= m
+    from fractions import Fraction
+    l, r = 2 * Fraction(x), Fraction(s) + Fraction(e)
+    return l < r if strict else l <= r
+
+
 def _sshape(x, s, e):
     if x <= s:
         return 0.0
-    if x <= 0.5 * (s + e):
+    if x >= e:
+        return 1.0
+    if _below_mid(x, s, e, False):
         return 2 * ((x - s) / (e - s)) ** 2
-    if x < e:
-        return 1 - 2 * ((x - e) / (e - s)) ** 2
-    return 1.0
+    return 1 - 2 * ((x - e) / (e - s)) ** 2
 
 
 def _zshape(x, s, e):
     if x <= s:
         return 1.0
-    if x < 0.5 * (s + e):
+    if x >= e:
+        return 0.0
+    if _below_mid(x, s, e, True):
         return 1 - 2 * ((x - s) / (e - s)) ** 2
-    if x < e:
-        return 2 * ((x - e) / (e - s)) ** 2
-    return 0.0
+    return 2 * ((x - e) / (e - s)) ** 2
 
 
 def doc_shape(name: str, p: dict, x: float) -> float:
